@@ -198,8 +198,11 @@ def explore_shard(mod, tier, seed, shard, nshards, hb, acc):
     # 1. exhaustive part, round-robin over shards
     enum = getattr(mod, 'enumerate_cases', None)
     if enum is not None:
-        for i, case in enumerate(enum(tier)):
-            if i % nshards != shard:
+        import inspect
+        own = len(inspect.signature(enum).parameters) >= 3
+        it = enum(tier, shard, nshards) if own else enum(tier)
+        for i, case in enumerate(it):
+            if not own and i % nshards != shard:
                 continue
             hb.begin(case)
             res = mod.judge(case)
